@@ -4,7 +4,7 @@ CONSTANTS
   BigN = 60
   MaxN = 3
   Filters = {"none", "flate", "hexflate"}
-  HdrSeps = {"sp", "nl", "crlf2"}
+  HdrSeps = {"sp", "nl", "crlf2", "tight"}
   LenStores = {"direct", "raw", "cmp"}
   Dev = {}
 INIT Init
